@@ -151,6 +151,7 @@ package storage
 //@ func ReadPath(ctx, readBucket, path) (data, retErr)
 //@   property C15 C09
 //@   ensures only-this-bucket: forall b ref :: b in ghost.sinkBuckets && !(b in old(ghost.sinkBuckets)) ==> b == readBucket
+//@   ensures only-this-path {C09}: ghost.sinkPaths == add(old(ghost.sinkPaths), path)
 //@   modifies ghost.fail, ghost.sinkPaths, ghost.sinkBuckets
 //@   ensures  reported: ghost.fail && !old(ghost.fail) ==> retErr != nil
 //@   canary ensures retErr == nil
@@ -159,6 +160,10 @@ package storage
 //@   property C15 C09
 //@   ensures forwards-options: retErr == nil ==> ghost.lastPutOptions == options
 //@   ensures only-this-bucket: forall b ref :: b in ghost.sinkBuckets && !(b in old(ghost.sinkBuckets)) ==> b == writeBucket
+//@   ensures only-this-path {C09}: ghost.sinkPaths == add(old(ghost.sinkPaths), path)
+//@   ensures exact-path {C13}: ghost.sinkPaths == add(old(ghost.sinkPaths), path)
+//@   ensures exact-bucket {C13}: ghost.sinkBuckets == add(old(ghost.sinkBuckets), writeBucket)
+//@   ensures failure-is-write-failure: retErr != nil ==> ghost.wfail
 //@   modifies ghost.fail, ghost.wfail, ghost.sinkPaths, ghost.sinkBuckets, ghost.lastPutOptions
 //@   ensures  reported: ghost.fail && !old(ghost.fail) ==> retErr != nil
 //@   ensures  write-reported: ghost.wfail && !old(ghost.wfail) ==> retErr != nil
@@ -272,11 +277,16 @@ package storage
 //@   ensures r != nil
 //
 // a mapped view is a new object, distinct from the bucket it wraps (trusted: it is a freshly built composite)
+// (C09) what a mapped view was built from is recorded by the uninterpreted u_viewBase / u_viewMapper (/verif/specs/C09.spec):
+// the view is a fresh object, so these only name its constructor arguments.
 //@ trusted func MapReadWriteBucket(readWriteBucket, mappers) (r)
 //@   ensures r != nil && (len(mappers) > 0 ==> r != readWriteBucket)
+//@   ensures len(mappers) > 0 ==> u_viewBase(r) == readWriteBucket && (len(mappers) == 1 ==> u_viewMapper(r) == mappers[0])
 //@ trusted func MapWriteBucket(writeBucket, mappers) (r)
 //@   ensures r != nil && (len(mappers) > 0 ==> r != writeBucket)
+//@   ensures len(mappers) > 0 ==> u_viewBase(r) == writeBucket && (len(mappers) == 1 ==> u_viewMapper(r) == mappers[0])
 //@ trusted func MapReadBucket(readBucket, mappers) (r)
 //@   ensures r != nil && (len(mappers) > 0 ==> r != readBucket)
+//@   ensures len(mappers) > 0 ==> u_viewBase(r) == readBucket && (len(mappers) == 1 ==> u_viewMapper(r) == mappers[0])
 //@ trusted pure func MapOnPrefix(prefix) (r)
 //@   ensures r != nil
